@@ -451,10 +451,10 @@ pub fn run_c07(tier: &str, seed: u64, replay: Option<&str>) -> (Meta, Report) {
         };
         return (meta, run_single(case.expect("case"), judge_c07));
     }
-    let ns = if thorough { 120_000 } else { 5_000 };
+    let ns = if thorough { 1_500_000 } else { 5_000 };
     let mut rep = run_cases(ns, "c07-scripted", move |i| c07_case("scripted", i, seed), judge_c07);
     rep.add("cases:scripted", ns as u64);
-    let n1 = if thorough { 60_000 } else { 3_000 };
+    let n1 = if thorough { 500_000 } else { 3_000 };
     rep.merge(run_cases(n1, "c07-c01rand", move |i| crate::p_xfer::c01_case("rand", i, seed), judge_c07));
     rep.add("cases:two-daemon-random", n1 as u64);
     let st = if thorough { 1 } else { 6 };
@@ -1014,7 +1014,7 @@ pub fn run_c08(tier: &str, seed: u64, replay: Option<&str>) -> (Meta, Report) {
     let n = c08_subsets_len();
     let mut rep = run_cases(n, "c08-subsets", move |i| c08_case("subsets", i, seed), judge_c08);
     rep.add("cases:subsets", n as u64);
-    let nr = if thorough { 100_000 } else { 5_000 };
+    let nr = if thorough { 2_000_000 } else { 5_000 };
     rep.merge(run_cases(nr, "c08-orders", move |i| c08_case("orders", i, seed), judge_c08));
     rep.add("cases:orders", nr as u64);
     let mut meta = meta;
